@@ -1584,6 +1584,16 @@ fn dec_report(msg: &Val, chunk: usize, out: &mut ReadOutcome) -> Option<(bool, b
 /// A report with more chunks than this is given up (`error` = "answer does not end").
 pub const MAX_CHUNKS: usize = 1000;
 
+thread_local! {
+    static CHUNK_CAP: Cell<usize> = const { Cell::new(MAX_CHUNKS) };
+}
+
+/// (added for C14) Lower the number of ReportData chunks after which the controller helpers of
+/// THIS thread give an answer up (at most [`MAX_CHUNKS`]); call it at the start of every case.
+pub fn set_chunk_cap(n: usize) {
+    CHUNK_CAP.with(|c| c.set(n.clamp(1, MAX_CHUNKS)));
+}
+
 /// How long the controller waits for an answer (virtual time) before giving up.
 pub const ANSWER_TIMEOUT_S: u64 = 40;
 
@@ -1638,8 +1648,9 @@ async fn report_loop(ex: &mut Exchange<'_>, subscribe: bool, on_chunk: &mut dyn 
             };
             let chunk = out.chunks;
             out.chunks += 1;
-            if out.chunks > MAX_CHUNKS {
-                out.error = Some(format!("answer does not end (more than {MAX_CHUNKS} ReportData chunks)"));
+            let cap = CHUNK_CAP.with(|c| c.get()).min(MAX_CHUNKS);
+            if out.chunks > cap {
+                out.error = Some(format!("answer does not end (more than {cap} ReportData chunks)"));
                 return out;
             }
             let Some((more, suppress)) = dec_report(&msg, chunk, &mut out) else {
